@@ -113,6 +113,11 @@ def generate(rnd, tier):
         if rnd.random() < 0.15:
             normal["param_type"] = rnd.choice(["float32", "float16", "int"])
     bern = {"p": gen_prob(rnd), "n": rnd.choice([None, rnd.randint(1, 500)])}
+    if rnd.random() < 0.08:
+        # a probability a hair below a simple fraction, n a multiple of its denominator: n*p is just below an integer,
+        # by far more than rounding (so floor(n*p) is that integer minus one)
+        b_ = rnd.randint(2, 9)
+        bern = {"p": rnd.randint(1, b_) / b_ - rnd.choice([1e-10, 3e-10, 1e-9]), "n": b_ * rnd.randint(20, 55)}
     p1, p2 = gen_prob(rnd), gen_prob(rnd)
     # rho: inside the admissible interval, outside, or anywhere
     corr = {"p1": p1, "p2": p2, "rho": round(rnd.uniform(-1, 1), 3) if rnd.random() < 0.7 else rnd.choice([0.0, 0.3, -0.3, 1.0, -1.0]),
